@@ -58,6 +58,12 @@ PROPS = {
         "missing": "byte-level refinement of intersection/except/overlap and the count formula min(count xs, count ys): correspondence + spec oracle only",
         "assumptions": ["documents are canonical encodings of good values"],
     },
+    "C14": {
+        "panic_is_violation": True,
+        "proved": "NEGATIONS with concrete witnesses (kernel-evaluated on the byte-level model of convert_to_comparable): the key is not an order embedding (string bytes vs depth markers), not injective (string prefix + control bytes; integers beyond 2^53), and separates -0.0 from 0. These are the known findings D14a/b/c.",
+        "missing": "the positive theorem on the restricted domain (string bytes >= 0x20, depth < 32, exactly representable numbers, no -0.0) is not proved yet; outside the three finding classes the property is decided by the keyorder oracle on the real code and by correspondence of the key bytes",
+        "assumptions": ["documents are canonical encodings of good values", "nesting below 255 (depth + 1 overflows a u8 beyond that: see C20)"],
+    },
     "C17": {
         "panic_is_violation": True,
         "proved": "frame theorems, for every prior buffer content: Value::write_to_vec (Encoder with reserve_jentries/replace_jentry at absolute indices) appends exactly encodeSpec v; ArrayBuilder/ObjectBuilder build_into with nested builders append a prefix-independent image; delete_by_index, concat of arrays and array_distinct inherit it",
